@@ -112,6 +112,20 @@ func init() {
 	reg("vf:vfPick", func(ex *Exec, fr *Frame, args []Value, site ssa.Instruction) Value {
 		t := ex.input(ex.strArg(args[0]), 64)
 		lo, hi := args[1].(*Term), args[2].(*Term)
+		if lo.IsConst() && hi.IsConst() {
+			// concrete range: fork over the values without consulting the solver
+			l, h := sx(lo.val, 64), sx(hi.val, 64)
+			if h < l {
+				panic(pathEnd{kind: endInfeasible, msg: "empty range"})
+			}
+			v := uint64(l + int64(ex.choose(int(h-l+1))))
+			ex.counters["concretize/vfPick"]++
+			if ex.fixed != nil && ex.fixed.Vars[ex.strArg(args[0])] != v {
+				panic(pathEnd{kind: endInfeasible, msg: "pick differs from the fixed model"})
+			}
+			ex.assume(ex.ts.Eq(t, ex.c64(v)))
+			return ex.c64(v)
+		}
 		c := ex.ts.BAnd(ex.ts.Sle(lo, t), ex.ts.Sle(t, hi))
 		if ex.check(c, false) == Unsat {
 			panic(pathEnd{kind: endInfeasible, msg: "empty range"})
@@ -244,6 +258,7 @@ func init() {
 		return t
 	})
 	reg("vf:vfBeforeEncode", func(ex *Exec, fr *Frame, args []Value, site ssa.Instruction) Value { return nil })
+	reg("vf:vfIsGSE", func(ex *Exec, fr *Frame, args []Value, site ssa.Instruction) Value { return ex.ts.True })
 	reg("vf:vfTier", func(ex *Exec, fr *Frame, args []Value, site ssa.Instruction) Value {
 		return ex.c64(uint64(ex.w.tier))
 	})
@@ -825,5 +840,155 @@ func init() {
 			}
 		}
 		return nil
+	})
+}
+
+// ---------- sequential driving of library goroutines, CRC, AEAD ----------
+
+func (ex *Exec) crcChain(bs []*Term) *Term {
+	h := ex.ts.Const(32, 0xffffffff)
+	for _, b := range bs {
+		h = ex.ts.UF("crcstep", 32, h, b)
+	}
+	return h
+}
+
+func init() {
+	// vfRunUntilBlocked(f func()): runs f (a goroutine body such as postProcess) until it
+	// blocks on a channel/select with nothing ready, then returns to the harness.
+	reg("vf:vfRunUntilBlocked", func(ex *Exec, fr *Frame, args []Value, site ssa.Instruction) Value {
+		cur, depth := ex.cur, ex.depth
+		blocked := false
+		func() {
+			defer func() {
+				if r := recover(); r != nil {
+					if pe, ok := r.(pathEnd); ok && pe.kind == endBlocked {
+						blocked = true
+						ex.cur, ex.depth = cur, depth
+						return
+					}
+					panic(r)
+				}
+			}()
+			ex.callValue(fr, args[0], nil, site)
+		}()
+		ex.counters["run-until-blocked"]++
+		return ex.ts.Bool(blocked)
+	})
+	reg("hash/crc32.ChecksumIEEE", func(ex *Exec, fr *Frame, args []Value, site ssa.Instruction) Value {
+		s := args[0].(SliceV)
+		ex.counters["crc32"]++
+		return ex.crcChain(ex.readBytes(s))
+	})
+	// vfAEADSeal(dst, nonce, plaintext []byte) []byte  — documented cipher.AEAD.Seal contract
+	reg("vf:vfAEADSeal", func(ex *Exec, fr *Frame, args []Value, site ssa.Instruction) Value {
+		dst := args[0].(SliceV)
+		nonce := ex.readBytes(args[1].(SliceV))
+		pt := ex.readBytes(args[2].(SliceV))
+		const tagLen = 16
+		var dl, dc, doff int
+		if dst.arr != nil {
+			dl, dc, doff = int(ex.concretize(dst.len, "aead")), int(ex.concretize(dst.cap, "aead")), int(ex.concretize(dst.off, "aead"))
+		}
+		total := dl + len(pt) + tagLen
+		var out SliceV
+		if dst.arr != nil && dc >= total {
+			out = SliceV{arr: dst.arr, off: dst.off, len: ex.c64(uint64(total)), cap: dst.cap}
+		} else {
+			na := ex.newArr(types.Typ[types.Uint8], total, "aead-seal-realloc")
+			for i := 0; i < dl; i++ {
+				na.elems[i] = ex.arrRead(dst.arr, ex.c64(uint64(doff+i)))
+			}
+			out = SliceV{arr: na, off: ex.c64(0), len: ex.c64(uint64(total)), cap: ex.c64(uint64(total))}
+			doff = 0
+			ex.counters["aead-seal-realloc"]++
+		}
+		ct := make([]*Term, len(pt))
+		for i, p := range pt {
+			a := append(append([]*Term{}, nonce...), ex.ts.Const(16, uint64(i)))
+			ct[i] = ex.ts.Xor(p, ex.ts.UF("aeadKS", 8, a...))
+		}
+		h := ex.crcChain(append(append([]*Term{}, nonce...), ct...))
+		for i, c := range ct {
+			ex.arrWrite(out.arr, ex.c64(uint64(doff+dl+i)), c)
+		}
+		for j := 0; j < tagLen; j++ {
+			ex.arrWrite(out.arr, ex.c64(uint64(doff+dl+len(pt)+j)), ex.ts.UF("aeadTag", 8, h, ex.ts.Const(8, uint64(j))))
+		}
+		return out
+	})
+	// vfAEADOpen(dst, nonce, ciphertext []byte) ([]byte, bool)
+	reg("vf:vfAEADOpen", func(ex *Exec, fr *Frame, args []Value, site ssa.Instruction) Value {
+		dst := args[0].(SliceV)
+		nonce := ex.readBytes(args[1].(SliceV))
+		ctAll := ex.readBytes(args[2].(SliceV))
+		const tagLen = 16
+		if len(ctAll) < tagLen {
+			return TupleV{SliceV{}, ex.ts.False}
+		}
+		n := len(ctAll) - tagLen
+		ct, tag := ctAll[:n], ctAll[n:]
+		h := ex.crcChain(append(append([]*Term{}, nonce...), ct...))
+		ok := ex.ts.True
+		for j := 0; j < tagLen; j++ {
+			ok = ex.ts.BAnd(ok, ex.ts.Eq(tag[j], ex.ts.UF("aeadTag", 8, h, ex.ts.Const(8, uint64(j)))))
+		}
+		if !ex.branch(ok) {
+			return TupleV{SliceV{}, ex.ts.False}
+		}
+		var dl, dc, doff int
+		if dst.arr != nil {
+			dl, dc, doff = int(ex.concretize(dst.len, "aead")), int(ex.concretize(dst.cap, "aead")), int(ex.concretize(dst.off, "aead"))
+		}
+		var out SliceV
+		if dst.arr != nil && dc >= dl+n {
+			out = SliceV{arr: dst.arr, off: dst.off, len: ex.c64(uint64(dl + n)), cap: dst.cap}
+		} else {
+			na := ex.newArr(types.Typ[types.Uint8], dl+n, "aead-open-realloc")
+			for i := 0; i < dl; i++ {
+				na.elems[i] = ex.arrRead(dst.arr, ex.c64(uint64(doff+i)))
+			}
+			out = SliceV{arr: na, off: ex.c64(0), len: ex.c64(uint64(dl + n)), cap: ex.c64(uint64(dl + n))}
+			doff = 0
+		}
+		for i, c := range ct {
+			a := append(append([]*Term{}, nonce...), ex.ts.Const(16, uint64(i)))
+			ex.arrWrite(out.arr, ex.c64(uint64(doff+dl+i)), ex.ts.Xor(c, ex.ts.UF("aeadKS", 8, a...)))
+		}
+		return TupleV{out, ex.ts.True}
+	})
+}
+
+func init() {
+	// vfFreshlyDistinct(a, b []byte): both are outputs of different fillRand calls, byte for byte
+	reg("vf:vfFreshlyDistinct", func(ex *Exec, fr *Frame, args []Value, site ssa.Instruction) Value {
+		a, b := ex.readBytes(args[0].(SliceV)), ex.readBytes(args[1].(SliceV))
+		if len(a) != len(b) || len(a) == 0 {
+			return ex.ts.False
+		}
+		call := func(t *Term) string {
+			if t.op != OpVar || !strings.HasPrefix(t.name, "rand#") {
+				return ""
+			}
+			return t.name[:strings.Index(t.name, "_")]
+		}
+		for i := range a {
+			ca, cb := call(a[i]), call(b[i])
+			if ca == "" || cb == "" || ca == cb {
+				return ex.ts.False
+			}
+		}
+		return ex.ts.True
+	})
+	reg("internal/bytealg.Equal", func(ex *Exec, fr *Frame, args []Value, site ssa.Instruction) Value {
+		a, b := ex.readBytes(args[0].(SliceV)), ex.readBytes(args[1].(SliceV))
+		if len(a) != len(b) {
+			return ex.ts.False
+		}
+		r := ex.ts.True
+		for i := range a {
+			r = ex.ts.BAnd(r, ex.ts.Eq(a[i], b[i]))
+		}
+		return r
 	})
 }
